@@ -1,4 +1,6 @@
-"""C09 -- negation / NNF / DNF. Proved: call shape of the NNF dispatch chain; three-valued De Morgan lemma. Bounded: rewrites on generated n-ary ASTs."""
+"""C09 -- negation / NNF / DNF.  Proved: Formula.__and__/__or__/__neg__ and six NNF case functions against an
+abstract semantics (all formulas, all assignments), NNF case coverage lemma, call shape of the NNF chain.
+Bounded: rewrites on generated n-ary ASTs (incl. DNF, renaming, the SMT-level NNF case)."""
 from vlib.harness import proved_tier
 from checks import bounded_C09
 
